@@ -139,6 +139,12 @@ struct Exp {
     must_remote: bool,
     /// local observation would be wrong (server not among the recipients)
     no_local: bool,
+    /// emitted towards clients by an app that was itself a client (no local server): must not be
+    /// observed while the app stays one
+    client_emitted: bool,
+    /// ... but the app has been singleplayer for a frame since (the buffered event is then handled
+    /// locally, and a re-emitted trigger is observed one frame later)
+    was_singleplayer_since: bool,
     target: Option<Entity>,
 }
 
@@ -150,6 +156,7 @@ struct Case {
     events: u32,
     checks: u64,
     failed_attempt_events: u64,
+    client_emitted_server_events: u64,
     harness_error: Option<String>,
 }
 
@@ -158,7 +165,7 @@ fn run_case(seed: u64) -> Case {
     let dedicated = rng.below(4) == 0;
     let auth = [AuthMethod::ProtocolCheck, AuthMethod::ProtocolCheck, AuthMethod::None, AuthMethod::Custom][rng.below(4)];
     let steps = 30 + rng.below(90);
-    let mut case = Case { cfg: format!("dedicated={dedicated} auth={auth:?}"), log: vec![], errs: vec![], transitions: 0, events: 0, checks: 0, failed_attempt_events: 0, harness_error: None };
+    let mut case = Case { cfg: format!("dedicated={dedicated} auth={auth:?}"), log: vec![], errs: vec![], transitions: 0, events: 0, checks: 0, failed_attempt_events: 0, client_emitted_server_events: 0, harness_error: None };
     let mut in_update = false;
     let res = catch_unwind(AssertUnwindSafe(|| {
         let mut app = mk(dedicated, auth);
@@ -168,7 +175,7 @@ fn run_case(seed: u64) -> Case {
         let mut running = false;
         let mut seq = 0u32;
         let mut pending: Vec<(&'static str, u32, Option<Entity>)> = vec![];
-        let mut pending_s: Vec<(&'static str, u32, bool, Option<Entity>)> = vec![];
+        let mut pending_s: Vec<(&'static str, u32, bool, Option<Entity>, bool)> = vec![];
         let mut expect: BTreeMap<u32, Exp> = BTreeMap::new();
         let mut force_frame = false;
         let mut prev_connecting: Vec<u32> = vec![];
@@ -256,8 +263,10 @@ fn run_case(seed: u64) -> Case {
                     case.log.push(format!("emit client-direction {:?}{}", pending.last().unwrap(), if inside { " (inside Update of the next frame)" } else { "" }));
                 }
                 4 | 5 => {
-                    // server-direction events are emitted while acting as server or singleplayer
-                    if client_st != St::Disconnected {
+                    // server-direction events are emitted while acting as server or singleplayer - and now
+                    // and then by game code that does not look at the configuration while the app is a client
+                    let as_client = client_st != St::Disconnected;
+                    if as_client && (dedicated || rng.below(3) != 0) {
                         continue;
                     }
                     seq += 1;
@@ -294,7 +303,10 @@ fn run_case(seed: u64) -> Case {
                             "STrig"
                         }
                     };
-                    pending_s.push((kind, seq, local, if kind == "STrig" || kind == "SIndT" { target } else { None }));
+                    pending_s.push((kind, seq, local, if kind == "STrig" || kind == "SIndT" { target } else { None }, as_client));
+                    if as_client {
+                        case.client_emitted_server_events += 1;
+                    }
                     case.log.push(format!("emit server-direction {kind} seq={seq} mode={mode:?} target={target:?}"));
                 }
                 _ => {
@@ -318,16 +330,21 @@ fn run_case(seed: u64) -> Case {
                     for (kind, s, target) in pending.drain(..) {
                         let e = match st {
                             // a target that the server does not know cannot be mapped: such a trigger may be withheld
-                            St::Connected => Exp { kind, local: 0, remote: 0, local_update: 0, must_local: false, must_remote: target.is_none(), no_local: false, target },
-                            St::Disconnected => Exp { kind, local: 0, remote: 0, local_update: 0, must_local: true, must_remote: false, no_local: false, target },
-                            St::Connecting => Exp { kind, local: 0, remote: 0, local_update: 0, must_local: false, must_remote: false, no_local: false, target },
+                            St::Connected => Exp { kind, local: 0, remote: 0, local_update: 0, must_local: false, must_remote: target.is_none(), no_local: false, client_emitted: false, was_singleplayer_since: false, target },
+                            St::Disconnected => Exp { kind, local: 0, remote: 0, local_update: 0, must_local: true, must_remote: false, no_local: false, client_emitted: false, was_singleplayer_since: false, target },
+                            St::Connecting => Exp { kind, local: 0, remote: 0, local_update: 0, must_local: false, must_remote: false, no_local: false, client_emitted: false, was_singleplayer_since: false, target },
                         };
                         expect.insert(s, e);
                     }
-                    for (kind, s, local, target) in pending_s.drain(..) {
+                    for (kind, s, local, target, as_client) in pending_s.drain(..) {
                         // an app without the client-side plugins is only promised "not twice"
-                        let must_local = local && !dedicated && st == St::Disconnected;
-                        expect.insert(s, Exp { kind, local: 0, remote: 0, local_update: 0, must_local, must_remote: false, no_local: !local, target });
+                        let must_local = local && !dedicated && st == St::Disconnected && !as_client;
+                        expect.insert(s, Exp { kind, local: 0, remote: 0, local_update: 0, must_local, must_remote: false, no_local: !local, client_emitted: as_client, was_singleplayer_since: false, target });
+                    }
+                    if st == St::Disconnected {
+                        for e in expect.values_mut().filter(|e| e.client_emitted) {
+                            e.was_singleplayer_since = true;
+                        }
                     }
                     in_update = true;
                     app.update();
@@ -398,6 +415,9 @@ fn run_case(seed: u64) -> Case {
                         e.local += 1;
                         if e.local + e.remote > 1 {
                             case.errs.push(format!("{kind} seq {s} handled {} times locally and {} times remotely", e.local, e.remote));
+                        }
+                        if e.client_emitted && st != St::Disconnected && !e.was_singleplayer_since {
+                            case.errs.push(format!("{kind} seq {s} was emitted towards clients while the app was a client and is observed locally while it still is one ({st:?})"));
                         }
                         if e.no_local && !dedicated {
                             case.errs.push(format!("{kind} seq {s} observed locally although the local server is not among its recipients"));
@@ -471,6 +491,7 @@ fn main() {
         res.obs.add("status_transitions", c.transitions as u64);
         res.obs.add("handling_observations_checked", c.checks);
         res.obs.add("events_of_a_connecting_frame_followed_by_a_failed_attempt", c.failed_attempt_events);
+        res.obs.add("server_direction_events_emitted_by_a_client_app", c.client_emitted_server_events as u64);
         if let Some(h) = c.harness_error {
             harness_errors.push(json!({"seed": seed, "error": h}));
             continue;
